@@ -546,11 +546,12 @@ type Sym struct {
 }
 
 type Ctx struct {
-	syms     map[string]*Sym
-	order    []string
-	n        int
-	noDefine int
-	axioms   []*Sym // global axioms, included when any of their trigger symbols is used
+	syms      map[string]*Sym
+	order     []string
+	n         int
+	noDefine  int
+	canonMemo map[string]string
+	axioms    []*Sym // global axioms, included when any of their trigger symbols is used
 }
 
 func NewCtx() *Ctx {
@@ -656,6 +657,62 @@ func (c *Ctx) Axiom(id string, triggers []string, body Term) {
 }
 
 var axTriggers = map[string][]string{}
+
+// Canon expands named definitions in a term text so that two loads of the same
+// location get the same string (used for lock-set keys).
+func (c *Ctx) Canon(text string) string {
+	if c.canonMemo == nil {
+		c.canonMemo = map[string]string{}
+	}
+	var sb strings.Builder
+	i := 0
+	for i < len(text) {
+		ch := text[i]
+		if ch == '(' || ch == ')' || ch == ' ' {
+			sb.WriteByte(ch)
+			i++
+			continue
+		}
+		j := i
+		if ch == '|' {
+			k := strings.IndexByte(text[i+1:], '|')
+			if k < 0 {
+				sb.WriteString(text[i:])
+				break
+			}
+			j = i + k + 2
+		} else {
+			for j < len(text) && text[j] != '(' && text[j] != ')' && text[j] != ' ' {
+				j++
+			}
+		}
+		tok := text[i:j]
+		if m, ok := c.canonMemo[tok]; ok {
+			sb.WriteString(m)
+		} else if sym, ok := c.syms[tok]; ok && sym.Kind == symDef && strings.HasPrefix(sym.Text, "(define-fun "+tok+" () ") {
+			body := sym.Text[len("(define-fun "+tok+" () "):]
+			// skip the sort
+			depth, k := 0, 0
+			for k < len(body) {
+				if body[k] == '(' {
+					depth++
+				} else if body[k] == ')' {
+					depth--
+				} else if body[k] == ' ' && depth == 0 {
+					break
+				}
+				k++
+			}
+			exp := c.Canon(strings.TrimSuffix(strings.TrimSpace(body[k:]), ")"))
+			c.canonMemo[tok] = exp
+			sb.WriteString(exp)
+		} else {
+			sb.WriteString(tok)
+		}
+		i = j
+	}
+	return sb.String()
+}
 
 func (c *Ctx) add(s *Sym) {
 	c.syms[s.Name] = s
